@@ -285,6 +285,27 @@ def gen_decl(rng, typ, dims, attr, pars, style):
             if rng.random() < 0.5:
                 e = {"op": "mul", "a": {"op": "num", "v": xj(rng.choice([2, 3, -1])), "int": True}, "b": e}
             return {"k": "expr", "e": e}
+    if dims and attr == "fixed" and r < 0.5:
+        # element-wise flags: an array literal of Booleans with mixed elements
+        n = numel(dims)
+        flags = [rng.random() < 0.5 for _ in range(n)]
+        if all(flags) or not any(flags):
+            flags[rng.randrange(n)] = not flags[0]
+        lits = [{"t": "bool", "v": f} for f in flags]
+        if len(dims) == 1:
+            return {"k": "arr", "rows": [[x] for x in lits], "d": 1}
+        return {"k": "arr", "rows": [lits[i * dims[1]:(i + 1) * dims[1]] for i in range(dims[0])], "d": 2}
+    if len(dims) == 2 and dims[0] == dims[1] and typ != "Boolean" and attr != "fixed" and r < 0.3:
+        # identity(n) / diagonal({..}): sparse DM constants whose structural zeros are elements too
+        n = dims[0]
+        if rng.random() < 0.4:
+            d, f = [Fraction(1)] * n, "identity"
+        else:
+            c = Fraction(rng.randint(-5, 5)) if typ == "Integer" else dy(rng)
+            d = [c] * n if rng.random() < 0.5 else [Fraction(rng.randint(-5, 5)) if typ == "Integer" else dy(rng) for _ in range(n)]
+            f = "diagonal"
+        return {"k": "dmat", "f": f, "d": [xj(x) for x in d],
+                "rows": [[xj(d[i] if i == j else 0) for j in range(n)] for i in range(n)]}
     if dims and attr != "fixed" and r < 0.75:
         if rng.random() < 0.25 and typ != "Boolean":
             which = rng.choice(["zeros", "ones", "fill"])
@@ -353,7 +374,9 @@ def _gen_case(rng, stream, style):
         typ = "Real" if r < 0.7 else ("Integer" if r < 0.88 else "Boolean")
         kind = rng.choice(["state", "alg", "alg", "input", "constant"]) if typ == "Real" else rng.choice(["alg", "alg", "input", "constant"])
         r = rng.random()
-        dims = [] if r < 0.55 else ([rng.choice([2, 3])] if r < 0.85 else [rng.choice([2, 3]), rng.choice([2, 3])])
+        dims = [] if r < 0.55 else ([rng.choice([2, 3])] if r < 0.82 else [rng.choice([2, 3]), rng.choice([2, 3])])
+        if len(dims) == 2 and rng.random() < 0.4:
+            dims[1] = dims[0]
         if kind == "constant" and dims and typ != "Real":
             dims = []
         v = {"name": "x%d" % (i + 1), "kind": kind, "type": typ, "dims": dims, "attrs": {}}
@@ -490,6 +513,10 @@ def decl_text(d, dims, pars):
         return "{" + ", ".join(expr_text(e, pars) for e in d["elems"]) + "}"
     if k == "notlit":
         return "not true" if d["v"] else "not false"
+    if k == "dmat":
+        if d["f"] == "identity":
+            return "identity(%d)" % len(d["d"])
+        return "diagonal({%s})" % ", ".join(a09.mo_num(jx(x)) for x in d["d"])
     if k == "dm":
         dd = dims or [1]
         args = ", ".join(str(x) for x in dd)
@@ -619,6 +646,9 @@ def declared(v, a, pars, off, pv):
         xs = [lit_val(d["v"])]
     elif d["k"] == "notlit":
         xs = [Fraction(0 if d["v"] else 1)]
+    elif d["k"] == "dmat":
+        rows = d["rows"]
+        xs = [jx(rows[i][j]) for j in range(len(rows[0])) for i in range(len(rows))]
     elif d["k"] == "expr":
         xs = ev(d["e"], pars, off, pv)
     elif d["k"] == "arrexpr":
@@ -785,7 +815,7 @@ def oracle(case, obs):
 def nontrivial(case):
     for v in case["vars"]:
         for a, d in v["attrs"].items():
-            if d["k"] in ("expr", "arr", "dm", "arrexpr", "notlit"):
+            if d["k"] in ("expr", "arr", "dm", "arrexpr", "notlit", "dmat"):
                 return True
             if d["k"] == "lit" and d["v"]["t"] != {"Real": "real", "Integer": "int", "Boolean": "bool"}[v["type"]]:
                 return True
